@@ -704,6 +704,314 @@ Theorem GenDerive_bls381fq_square_in_place_model : forall a0 a1 a2 a3 a4 a5,
   gen_bls381fq_square_in_place (inv_of gen_bls381fq_modulus) a0 a1 a2 a3 a4 a5 = square_in_place true gen_bls381fq_modulus [a0; a1; a2; a3; a4; a5].
 Proof. exact gen_bls381fq_square_in_place_model. Qed.
 
+(* ================= Z191 (N = 3, 191 bits) ================= *)
+Theorem GenDerive_z191_modulus_val :
+  val gen_z191_modulus = gen_z191_modulus_attr /\ length gen_z191_modulus = 3%nat /\ wf gen_z191_modulus /\ gen_z191_modulus_attr mod 2 = 1 /\
+  gen_z191_modulus_attr = 3138550867693340381577612344682894744587803114800249045299.
+Proof. exact gen_z191_modulus_val. Qed.
+Theorem GenDerive_z191_flags :
+  has_spare_bit gen_z191_modulus = true /\ nocarry_macro gen_z191_modulus = false.
+Proof. exact gen_z191_flags. Qed.
+Theorem GenDerive_z191_add_with_carry_eq : forall a0 a1 a2 b0 b1 b2,
+  gen_z191_add_with_carry a0 a1 a2 b0 b1 b2 = add_with_carry [a0; a1; a2] [b0; b1; b2].
+Proof. exact gen_z191_add_with_carry_eq. Qed.
+Theorem GenDerive_z191_sub_with_borrow_eq : forall a0 a1 a2 b0 b1 b2,
+  gen_z191_sub_with_borrow a0 a1 a2 b0 b1 b2 = sub_with_borrow [a0; a1; a2] [b0; b1; b2].
+Proof. exact gen_z191_sub_with_borrow_eq. Qed.
+Theorem GenDerive_z191_subtract_modulus_eq : forall a0 a1 a2,
+  gen_z191_subtract_modulus a0 a1 a2 = subtract_modulus gen_z191_modulus [a0; a1; a2].
+Proof. exact gen_z191_subtract_modulus_eq. Qed.
+Theorem GenDerive_z191_subtract_modulus_with_carry_eq : forall a0 a1 a2 carry,
+  gen_z191_subtract_modulus_with_carry a0 a1 a2 carry = subtract_modulus_with_carry gen_z191_modulus [a0; a1; a2] carry.
+Proof. exact gen_z191_subtract_modulus_with_carry_eq. Qed.
+Theorem GenDerive_z191_add_assign_eq : forall a0 a1 a2 b0 b1 b2,
+  gen_z191_add_assign a0 a1 a2 b0 b1 b2 = add_assign gen_z191_modulus [a0; a1; a2] [b0; b1; b2].
+Proof. exact gen_z191_add_assign_eq. Qed.
+Theorem GenDerive_z191_sub_assign_eq : forall a0 a1 a2 b0 b1 b2,
+  gen_z191_sub_assign a0 a1 a2 b0 b1 b2 = sub_assign gen_z191_modulus [a0; a1; a2] [b0; b1; b2].
+Proof. exact gen_z191_sub_assign_eq. Qed.
+Theorem GenDerive_z191_double_in_place_eq : forall a0 a1 a2,
+  gen_z191_double_in_place a0 a1 a2 = double_in_place gen_z191_modulus [a0; a1; a2].
+Proof. exact gen_z191_double_in_place_eq. Qed.
+Theorem GenDerive_z191_neg_in_place_eq : forall a0 a1 a2,
+  gen_z191_neg_in_place a0 a1 a2 = neg_in_place gen_z191_modulus [a0; a1; a2].
+Proof. exact gen_z191_neg_in_place_eq. Qed.
+Theorem GenDerive_z191_mul_assign_eq : forall a0 a1 a2 b0 b1 b2,
+  gen_z191_mul_assign (inv_of gen_z191_modulus) a0 a1 a2 b0 b1 b2 = mul_assign_w (nocarry_macro gen_z191_modulus) (has_spare_bit gen_z191_modulus) gen_z191_modulus [a0; a1; a2] [b0; b1; b2].
+Proof. exact gen_z191_mul_assign_eq. Qed.
+Theorem GenDerive_z191_square_in_place_eq : forall a0 a1 a2,
+  gen_z191_square_in_place (inv_of gen_z191_modulus) a0 a1 a2 = square_full gen_z191_modulus [a0; a1; a2].
+Proof. exact gen_z191_square_in_place_eq. Qed.
+Theorem GenDerive_z191_add_assign_spec : forall a0 a1 a2 b0 b1 b2,
+  wf [a0; a1; a2] -> val [a0; a1; a2] < gen_z191_modulus_attr -> wf [b0; b1; b2] -> val [b0; b1; b2] < gen_z191_modulus_attr ->
+  let r := gen_z191_add_assign a0 a1 a2 b0 b1 b2 in
+  wf r /\ length r = 3%nat /\ val r < gen_z191_modulus_attr /\ val r = (val [a0; a1; a2] + val [b0; b1; b2]) mod gen_z191_modulus_attr.
+Proof. exact gen_z191_add_assign_spec. Qed.
+Theorem GenDerive_z191_sub_assign_spec : forall a0 a1 a2 b0 b1 b2,
+  wf [a0; a1; a2] -> val [a0; a1; a2] < gen_z191_modulus_attr -> wf [b0; b1; b2] -> val [b0; b1; b2] < gen_z191_modulus_attr ->
+  let r := gen_z191_sub_assign a0 a1 a2 b0 b1 b2 in
+  wf r /\ length r = 3%nat /\ val r < gen_z191_modulus_attr /\ val r = (val [a0; a1; a2] - val [b0; b1; b2]) mod gen_z191_modulus_attr.
+Proof. exact gen_z191_sub_assign_spec. Qed.
+Theorem GenDerive_z191_double_in_place_spec : forall a0 a1 a2,
+  wf [a0; a1; a2] -> val [a0; a1; a2] < gen_z191_modulus_attr ->
+  let r := gen_z191_double_in_place a0 a1 a2 in
+  wf r /\ length r = 3%nat /\ val r < gen_z191_modulus_attr /\ val r = (2 * val [a0; a1; a2]) mod gen_z191_modulus_attr.
+Proof. exact gen_z191_double_in_place_spec. Qed.
+Theorem GenDerive_z191_neg_in_place_spec : forall a0 a1 a2,
+  wf [a0; a1; a2] -> val [a0; a1; a2] < gen_z191_modulus_attr ->
+  let r := gen_z191_neg_in_place a0 a1 a2 in
+  wf r /\ length r = 3%nat /\ val r < gen_z191_modulus_attr /\ val r = (- val [a0; a1; a2]) mod gen_z191_modulus_attr.
+Proof. exact gen_z191_neg_in_place_spec. Qed.
+Theorem GenDerive_z191_mul_assign_spec : forall a0 a1 a2 b0 b1 b2,
+  wf [a0; a1; a2] -> val [a0; a1; a2] < gen_z191_modulus_attr -> wf [b0; b1; b2] -> val [b0; b1; b2] < gen_z191_modulus_attr ->
+  let r := gen_z191_mul_assign (inv_of gen_z191_modulus) a0 a1 a2 b0 b1 b2 in
+  wf r /\ length r = 3%nat /\ val r < gen_z191_modulus_attr /\ (val r * Wn 3) mod gen_z191_modulus_attr = (val [a0; a1; a2] * val [b0; b1; b2]) mod gen_z191_modulus_attr.
+Proof. exact gen_z191_mul_assign_spec. Qed.
+Theorem GenDerive_z191_square_in_place_spec : forall a0 a1 a2,
+  wf [a0; a1; a2] -> val [a0; a1; a2] < gen_z191_modulus_attr ->
+  let r := gen_z191_square_in_place (inv_of gen_z191_modulus) a0 a1 a2 in
+  wf r /\ length r = 3%nat /\ val r < gen_z191_modulus_attr /\ (val r * Wn 3) mod gen_z191_modulus_attr = (val [a0; a1; a2] * val [a0; a1; a2]) mod gen_z191_modulus_attr.
+Proof. exact gen_z191_square_in_place_spec. Qed.
+Theorem GenDerive_z191_mul_assign_model : forall a0 a1 a2 b0 b1 b2,
+  wf [a0; a1; a2] -> wf [b0; b1; b2] -> val [a0; a1; a2] < gen_z191_modulus_attr ->
+  gen_z191_mul_assign (inv_of gen_z191_modulus) a0 a1 a2 b0 b1 b2 = mul_assign true gen_z191_modulus [a0; a1; a2] [b0; b1; b2].
+Proof. exact gen_z191_mul_assign_model. Qed.
+Theorem GenDerive_z191_square_in_place_model : forall a0 a1 a2,
+  wf [a0; a1; a2] -> val [a0; a1; a2] < gen_z191_modulus_attr ->
+  gen_z191_square_in_place (inv_of gen_z191_modulus) a0 a1 a2 = square_in_place true gen_z191_modulus [a0; a1; a2].
+Proof. exact gen_z191_square_in_place_model. Qed.
+
+(* ================= Z254 (N = 4, 254 bits) ================= *)
+Theorem GenDerive_z254_modulus_val :
+  val gen_z254_modulus = gen_z254_modulus_attr /\ length gen_z254_modulus = 4%nat /\ wf gen_z254_modulus /\ gen_z254_modulus_attr mod 2 = 1 /\
+  gen_z254_modulus_attr = 14474011154664524434223474861472669245494537506412736921034553445453175718117.
+Proof. exact gen_z254_modulus_val. Qed.
+Theorem GenDerive_z254_flags :
+  has_spare_bit gen_z254_modulus = true /\ nocarry_macro gen_z254_modulus = true.
+Proof. exact gen_z254_flags. Qed.
+Theorem GenDerive_z254_add_with_carry_eq : forall a0 a1 a2 a3 b0 b1 b2 b3,
+  gen_z254_add_with_carry a0 a1 a2 a3 b0 b1 b2 b3 = add_with_carry [a0; a1; a2; a3] [b0; b1; b2; b3].
+Proof. exact gen_z254_add_with_carry_eq. Qed.
+Theorem GenDerive_z254_sub_with_borrow_eq : forall a0 a1 a2 a3 b0 b1 b2 b3,
+  gen_z254_sub_with_borrow a0 a1 a2 a3 b0 b1 b2 b3 = sub_with_borrow [a0; a1; a2; a3] [b0; b1; b2; b3].
+Proof. exact gen_z254_sub_with_borrow_eq. Qed.
+Theorem GenDerive_z254_subtract_modulus_eq : forall a0 a1 a2 a3,
+  gen_z254_subtract_modulus a0 a1 a2 a3 = subtract_modulus gen_z254_modulus [a0; a1; a2; a3].
+Proof. exact gen_z254_subtract_modulus_eq. Qed.
+Theorem GenDerive_z254_subtract_modulus_with_carry_eq : forall a0 a1 a2 a3 carry,
+  gen_z254_subtract_modulus_with_carry a0 a1 a2 a3 carry = subtract_modulus_with_carry gen_z254_modulus [a0; a1; a2; a3] carry.
+Proof. exact gen_z254_subtract_modulus_with_carry_eq. Qed.
+Theorem GenDerive_z254_add_assign_eq : forall a0 a1 a2 a3 b0 b1 b2 b3,
+  gen_z254_add_assign a0 a1 a2 a3 b0 b1 b2 b3 = add_assign gen_z254_modulus [a0; a1; a2; a3] [b0; b1; b2; b3].
+Proof. exact gen_z254_add_assign_eq. Qed.
+Theorem GenDerive_z254_sub_assign_eq : forall a0 a1 a2 a3 b0 b1 b2 b3,
+  gen_z254_sub_assign a0 a1 a2 a3 b0 b1 b2 b3 = sub_assign gen_z254_modulus [a0; a1; a2; a3] [b0; b1; b2; b3].
+Proof. exact gen_z254_sub_assign_eq. Qed.
+Theorem GenDerive_z254_double_in_place_eq : forall a0 a1 a2 a3,
+  gen_z254_double_in_place a0 a1 a2 a3 = double_in_place gen_z254_modulus [a0; a1; a2; a3].
+Proof. exact gen_z254_double_in_place_eq. Qed.
+Theorem GenDerive_z254_neg_in_place_eq : forall a0 a1 a2 a3,
+  gen_z254_neg_in_place a0 a1 a2 a3 = neg_in_place gen_z254_modulus [a0; a1; a2; a3].
+Proof. exact gen_z254_neg_in_place_eq. Qed.
+Theorem GenDerive_z254_mul_assign_eq : forall a0 a1 a2 a3 b0 b1 b2 b3,
+  gen_z254_mul_assign (inv_of gen_z254_modulus) a0 a1 a2 a3 b0 b1 b2 b3 = mul_assign_w (nocarry_macro gen_z254_modulus) (has_spare_bit gen_z254_modulus) gen_z254_modulus [a0; a1; a2; a3] [b0; b1; b2; b3].
+Proof. exact gen_z254_mul_assign_eq. Qed.
+Theorem GenDerive_z254_square_in_place_eq : forall a0 a1 a2 a3,
+  gen_z254_square_in_place (inv_of gen_z254_modulus) a0 a1 a2 a3 = square_full gen_z254_modulus [a0; a1; a2; a3].
+Proof. exact gen_z254_square_in_place_eq. Qed.
+Theorem GenDerive_z254_add_assign_spec : forall a0 a1 a2 a3 b0 b1 b2 b3,
+  wf [a0; a1; a2; a3] -> val [a0; a1; a2; a3] < gen_z254_modulus_attr -> wf [b0; b1; b2; b3] -> val [b0; b1; b2; b3] < gen_z254_modulus_attr ->
+  let r := gen_z254_add_assign a0 a1 a2 a3 b0 b1 b2 b3 in
+  wf r /\ length r = 4%nat /\ val r < gen_z254_modulus_attr /\ val r = (val [a0; a1; a2; a3] + val [b0; b1; b2; b3]) mod gen_z254_modulus_attr.
+Proof. exact gen_z254_add_assign_spec. Qed.
+Theorem GenDerive_z254_sub_assign_spec : forall a0 a1 a2 a3 b0 b1 b2 b3,
+  wf [a0; a1; a2; a3] -> val [a0; a1; a2; a3] < gen_z254_modulus_attr -> wf [b0; b1; b2; b3] -> val [b0; b1; b2; b3] < gen_z254_modulus_attr ->
+  let r := gen_z254_sub_assign a0 a1 a2 a3 b0 b1 b2 b3 in
+  wf r /\ length r = 4%nat /\ val r < gen_z254_modulus_attr /\ val r = (val [a0; a1; a2; a3] - val [b0; b1; b2; b3]) mod gen_z254_modulus_attr.
+Proof. exact gen_z254_sub_assign_spec. Qed.
+Theorem GenDerive_z254_double_in_place_spec : forall a0 a1 a2 a3,
+  wf [a0; a1; a2; a3] -> val [a0; a1; a2; a3] < gen_z254_modulus_attr ->
+  let r := gen_z254_double_in_place a0 a1 a2 a3 in
+  wf r /\ length r = 4%nat /\ val r < gen_z254_modulus_attr /\ val r = (2 * val [a0; a1; a2; a3]) mod gen_z254_modulus_attr.
+Proof. exact gen_z254_double_in_place_spec. Qed.
+Theorem GenDerive_z254_neg_in_place_spec : forall a0 a1 a2 a3,
+  wf [a0; a1; a2; a3] -> val [a0; a1; a2; a3] < gen_z254_modulus_attr ->
+  let r := gen_z254_neg_in_place a0 a1 a2 a3 in
+  wf r /\ length r = 4%nat /\ val r < gen_z254_modulus_attr /\ val r = (- val [a0; a1; a2; a3]) mod gen_z254_modulus_attr.
+Proof. exact gen_z254_neg_in_place_spec. Qed.
+Theorem GenDerive_z254_mul_assign_spec : forall a0 a1 a2 a3 b0 b1 b2 b3,
+  wf [a0; a1; a2; a3] -> val [a0; a1; a2; a3] < gen_z254_modulus_attr -> wf [b0; b1; b2; b3] -> val [b0; b1; b2; b3] < gen_z254_modulus_attr ->
+  let r := gen_z254_mul_assign (inv_of gen_z254_modulus) a0 a1 a2 a3 b0 b1 b2 b3 in
+  wf r /\ length r = 4%nat /\ val r < gen_z254_modulus_attr /\ (val r * Wn 4) mod gen_z254_modulus_attr = (val [a0; a1; a2; a3] * val [b0; b1; b2; b3]) mod gen_z254_modulus_attr.
+Proof. exact gen_z254_mul_assign_spec. Qed.
+Theorem GenDerive_z254_square_in_place_spec : forall a0 a1 a2 a3,
+  wf [a0; a1; a2; a3] -> val [a0; a1; a2; a3] < gen_z254_modulus_attr ->
+  let r := gen_z254_square_in_place (inv_of gen_z254_modulus) a0 a1 a2 a3 in
+  wf r /\ length r = 4%nat /\ val r < gen_z254_modulus_attr /\ (val r * Wn 4) mod gen_z254_modulus_attr = (val [a0; a1; a2; a3] * val [a0; a1; a2; a3]) mod gen_z254_modulus_attr.
+Proof. exact gen_z254_square_in_place_spec. Qed.
+Theorem GenDerive_z254_mul_assign_model : forall a0 a1 a2 a3 b0 b1 b2 b3,
+  wf [a0; a1; a2; a3] -> wf [b0; b1; b2; b3] -> val [a0; a1; a2; a3] < gen_z254_modulus_attr ->
+  gen_z254_mul_assign (inv_of gen_z254_modulus) a0 a1 a2 a3 b0 b1 b2 b3 = mul_assign true gen_z254_modulus [a0; a1; a2; a3] [b0; b1; b2; b3].
+Proof. exact gen_z254_mul_assign_model. Qed.
+Theorem GenDerive_z254_square_in_place_model : forall a0 a1 a2 a3,
+  wf [a0; a1; a2; a3] -> val [a0; a1; a2; a3] < gen_z254_modulus_attr ->
+  gen_z254_square_in_place (inv_of gen_z254_modulus) a0 a1 a2 a3 = square_in_place true gen_z254_modulus [a0; a1; a2; a3].
+Proof. exact gen_z254_square_in_place_model. Qed.
+
+(* ================= Z255 (N = 4, 255 bits) ================= *)
+Theorem GenDerive_z255_modulus_val :
+  val gen_z255_modulus = gen_z255_modulus_attr /\ length gen_z255_modulus = 4%nat /\ wf gen_z255_modulus /\ gen_z255_modulus_attr mod 2 = 1 /\
+  gen_z255_modulus_attr = 57896044618658097705508390768957273162799202909612615603626436559492530307207.
+Proof. exact gen_z255_modulus_val. Qed.
+Theorem GenDerive_z255_flags :
+  has_spare_bit gen_z255_modulus = true /\ nocarry_macro gen_z255_modulus = false.
+Proof. exact gen_z255_flags. Qed.
+Theorem GenDerive_z255_add_with_carry_eq : forall a0 a1 a2 a3 b0 b1 b2 b3,
+  gen_z255_add_with_carry a0 a1 a2 a3 b0 b1 b2 b3 = add_with_carry [a0; a1; a2; a3] [b0; b1; b2; b3].
+Proof. exact gen_z255_add_with_carry_eq. Qed.
+Theorem GenDerive_z255_sub_with_borrow_eq : forall a0 a1 a2 a3 b0 b1 b2 b3,
+  gen_z255_sub_with_borrow a0 a1 a2 a3 b0 b1 b2 b3 = sub_with_borrow [a0; a1; a2; a3] [b0; b1; b2; b3].
+Proof. exact gen_z255_sub_with_borrow_eq. Qed.
+Theorem GenDerive_z255_subtract_modulus_eq : forall a0 a1 a2 a3,
+  gen_z255_subtract_modulus a0 a1 a2 a3 = subtract_modulus gen_z255_modulus [a0; a1; a2; a3].
+Proof. exact gen_z255_subtract_modulus_eq. Qed.
+Theorem GenDerive_z255_subtract_modulus_with_carry_eq : forall a0 a1 a2 a3 carry,
+  gen_z255_subtract_modulus_with_carry a0 a1 a2 a3 carry = subtract_modulus_with_carry gen_z255_modulus [a0; a1; a2; a3] carry.
+Proof. exact gen_z255_subtract_modulus_with_carry_eq. Qed.
+Theorem GenDerive_z255_add_assign_eq : forall a0 a1 a2 a3 b0 b1 b2 b3,
+  gen_z255_add_assign a0 a1 a2 a3 b0 b1 b2 b3 = add_assign gen_z255_modulus [a0; a1; a2; a3] [b0; b1; b2; b3].
+Proof. exact gen_z255_add_assign_eq. Qed.
+Theorem GenDerive_z255_sub_assign_eq : forall a0 a1 a2 a3 b0 b1 b2 b3,
+  gen_z255_sub_assign a0 a1 a2 a3 b0 b1 b2 b3 = sub_assign gen_z255_modulus [a0; a1; a2; a3] [b0; b1; b2; b3].
+Proof. exact gen_z255_sub_assign_eq. Qed.
+Theorem GenDerive_z255_double_in_place_eq : forall a0 a1 a2 a3,
+  gen_z255_double_in_place a0 a1 a2 a3 = double_in_place gen_z255_modulus [a0; a1; a2; a3].
+Proof. exact gen_z255_double_in_place_eq. Qed.
+Theorem GenDerive_z255_neg_in_place_eq : forall a0 a1 a2 a3,
+  gen_z255_neg_in_place a0 a1 a2 a3 = neg_in_place gen_z255_modulus [a0; a1; a2; a3].
+Proof. exact gen_z255_neg_in_place_eq. Qed.
+Theorem GenDerive_z255_mul_assign_eq : forall a0 a1 a2 a3 b0 b1 b2 b3,
+  gen_z255_mul_assign (inv_of gen_z255_modulus) a0 a1 a2 a3 b0 b1 b2 b3 = mul_assign_w (nocarry_macro gen_z255_modulus) (has_spare_bit gen_z255_modulus) gen_z255_modulus [a0; a1; a2; a3] [b0; b1; b2; b3].
+Proof. exact gen_z255_mul_assign_eq. Qed.
+Theorem GenDerive_z255_square_in_place_eq : forall a0 a1 a2 a3,
+  gen_z255_square_in_place (inv_of gen_z255_modulus) a0 a1 a2 a3 = square_full gen_z255_modulus [a0; a1; a2; a3].
+Proof. exact gen_z255_square_in_place_eq. Qed.
+Theorem GenDerive_z255_add_assign_spec : forall a0 a1 a2 a3 b0 b1 b2 b3,
+  wf [a0; a1; a2; a3] -> val [a0; a1; a2; a3] < gen_z255_modulus_attr -> wf [b0; b1; b2; b3] -> val [b0; b1; b2; b3] < gen_z255_modulus_attr ->
+  let r := gen_z255_add_assign a0 a1 a2 a3 b0 b1 b2 b3 in
+  wf r /\ length r = 4%nat /\ val r < gen_z255_modulus_attr /\ val r = (val [a0; a1; a2; a3] + val [b0; b1; b2; b3]) mod gen_z255_modulus_attr.
+Proof. exact gen_z255_add_assign_spec. Qed.
+Theorem GenDerive_z255_sub_assign_spec : forall a0 a1 a2 a3 b0 b1 b2 b3,
+  wf [a0; a1; a2; a3] -> val [a0; a1; a2; a3] < gen_z255_modulus_attr -> wf [b0; b1; b2; b3] -> val [b0; b1; b2; b3] < gen_z255_modulus_attr ->
+  let r := gen_z255_sub_assign a0 a1 a2 a3 b0 b1 b2 b3 in
+  wf r /\ length r = 4%nat /\ val r < gen_z255_modulus_attr /\ val r = (val [a0; a1; a2; a3] - val [b0; b1; b2; b3]) mod gen_z255_modulus_attr.
+Proof. exact gen_z255_sub_assign_spec. Qed.
+Theorem GenDerive_z255_double_in_place_spec : forall a0 a1 a2 a3,
+  wf [a0; a1; a2; a3] -> val [a0; a1; a2; a3] < gen_z255_modulus_attr ->
+  let r := gen_z255_double_in_place a0 a1 a2 a3 in
+  wf r /\ length r = 4%nat /\ val r < gen_z255_modulus_attr /\ val r = (2 * val [a0; a1; a2; a3]) mod gen_z255_modulus_attr.
+Proof. exact gen_z255_double_in_place_spec. Qed.
+Theorem GenDerive_z255_neg_in_place_spec : forall a0 a1 a2 a3,
+  wf [a0; a1; a2; a3] -> val [a0; a1; a2; a3] < gen_z255_modulus_attr ->
+  let r := gen_z255_neg_in_place a0 a1 a2 a3 in
+  wf r /\ length r = 4%nat /\ val r < gen_z255_modulus_attr /\ val r = (- val [a0; a1; a2; a3]) mod gen_z255_modulus_attr.
+Proof. exact gen_z255_neg_in_place_spec. Qed.
+Theorem GenDerive_z255_mul_assign_spec : forall a0 a1 a2 a3 b0 b1 b2 b3,
+  wf [a0; a1; a2; a3] -> val [a0; a1; a2; a3] < gen_z255_modulus_attr -> wf [b0; b1; b2; b3] -> val [b0; b1; b2; b3] < gen_z255_modulus_attr ->
+  let r := gen_z255_mul_assign (inv_of gen_z255_modulus) a0 a1 a2 a3 b0 b1 b2 b3 in
+  wf r /\ length r = 4%nat /\ val r < gen_z255_modulus_attr /\ (val r * Wn 4) mod gen_z255_modulus_attr = (val [a0; a1; a2; a3] * val [b0; b1; b2; b3]) mod gen_z255_modulus_attr.
+Proof. exact gen_z255_mul_assign_spec. Qed.
+Theorem GenDerive_z255_square_in_place_spec : forall a0 a1 a2 a3,
+  wf [a0; a1; a2; a3] -> val [a0; a1; a2; a3] < gen_z255_modulus_attr ->
+  let r := gen_z255_square_in_place (inv_of gen_z255_modulus) a0 a1 a2 a3 in
+  wf r /\ length r = 4%nat /\ val r < gen_z255_modulus_attr /\ (val r * Wn 4) mod gen_z255_modulus_attr = (val [a0; a1; a2; a3] * val [a0; a1; a2; a3]) mod gen_z255_modulus_attr.
+Proof. exact gen_z255_square_in_place_spec. Qed.
+Theorem GenDerive_z255_mul_assign_model : forall a0 a1 a2 a3 b0 b1 b2 b3,
+  wf [a0; a1; a2; a3] -> wf [b0; b1; b2; b3] -> val [a0; a1; a2; a3] < gen_z255_modulus_attr ->
+  gen_z255_mul_assign (inv_of gen_z255_modulus) a0 a1 a2 a3 b0 b1 b2 b3 = mul_assign true gen_z255_modulus [a0; a1; a2; a3] [b0; b1; b2; b3].
+Proof. exact gen_z255_mul_assign_model. Qed.
+Theorem GenDerive_z255_square_in_place_model : forall a0 a1 a2 a3,
+  wf [a0; a1; a2; a3] -> val [a0; a1; a2; a3] < gen_z255_modulus_attr ->
+  gen_z255_square_in_place (inv_of gen_z255_modulus) a0 a1 a2 a3 = square_in_place true gen_z255_modulus [a0; a1; a2; a3].
+Proof. exact gen_z255_square_in_place_model. Qed.
+
+(* ================= P124 (N = 2, 124 bits) ================= *)
+Theorem GenDerive_p124_modulus_val :
+  val gen_p124_modulus = gen_p124_modulus_attr /\ length gen_p124_modulus = 2%nat /\ wf gen_p124_modulus /\ gen_p124_modulus_attr mod 2 = 1 /\
+  gen_p124_modulus_attr = 21267647932558653948014168890775961601.
+Proof. exact gen_p124_modulus_val. Qed.
+Theorem GenDerive_p124_flags :
+  has_spare_bit gen_p124_modulus = true /\ nocarry_macro gen_p124_modulus = true.
+Proof. exact gen_p124_flags. Qed.
+Theorem GenDerive_p124_add_with_carry_eq : forall a0 a1 b0 b1,
+  gen_p124_add_with_carry a0 a1 b0 b1 = add_with_carry [a0; a1] [b0; b1].
+Proof. exact gen_p124_add_with_carry_eq. Qed.
+Theorem GenDerive_p124_sub_with_borrow_eq : forall a0 a1 b0 b1,
+  gen_p124_sub_with_borrow a0 a1 b0 b1 = sub_with_borrow [a0; a1] [b0; b1].
+Proof. exact gen_p124_sub_with_borrow_eq. Qed.
+Theorem GenDerive_p124_subtract_modulus_eq : forall a0 a1,
+  gen_p124_subtract_modulus a0 a1 = subtract_modulus gen_p124_modulus [a0; a1].
+Proof. exact gen_p124_subtract_modulus_eq. Qed.
+Theorem GenDerive_p124_subtract_modulus_with_carry_eq : forall a0 a1 carry,
+  gen_p124_subtract_modulus_with_carry a0 a1 carry = subtract_modulus_with_carry gen_p124_modulus [a0; a1] carry.
+Proof. exact gen_p124_subtract_modulus_with_carry_eq. Qed.
+Theorem GenDerive_p124_add_assign_eq : forall a0 a1 b0 b1,
+  gen_p124_add_assign a0 a1 b0 b1 = add_assign gen_p124_modulus [a0; a1] [b0; b1].
+Proof. exact gen_p124_add_assign_eq. Qed.
+Theorem GenDerive_p124_sub_assign_eq : forall a0 a1 b0 b1,
+  gen_p124_sub_assign a0 a1 b0 b1 = sub_assign gen_p124_modulus [a0; a1] [b0; b1].
+Proof. exact gen_p124_sub_assign_eq. Qed.
+Theorem GenDerive_p124_double_in_place_eq : forall a0 a1,
+  gen_p124_double_in_place a0 a1 = double_in_place gen_p124_modulus [a0; a1].
+Proof. exact gen_p124_double_in_place_eq. Qed.
+Theorem GenDerive_p124_neg_in_place_eq : forall a0 a1,
+  gen_p124_neg_in_place a0 a1 = neg_in_place gen_p124_modulus [a0; a1].
+Proof. exact gen_p124_neg_in_place_eq. Qed.
+Theorem GenDerive_p124_mul_assign_eq : forall a0 a1 b0 b1,
+  gen_p124_mul_assign (inv_of gen_p124_modulus) a0 a1 b0 b1 = mul_assign_w (nocarry_macro gen_p124_modulus) (has_spare_bit gen_p124_modulus) gen_p124_modulus [a0; a1] [b0; b1].
+Proof. exact gen_p124_mul_assign_eq. Qed.
+Theorem GenDerive_p124_square_in_place_eq : forall a0 a1,
+  gen_p124_square_in_place (inv_of gen_p124_modulus) a0 a1 = square_full gen_p124_modulus [a0; a1].
+Proof. exact gen_p124_square_in_place_eq. Qed.
+Theorem GenDerive_p124_add_assign_spec : forall a0 a1 b0 b1,
+  wf [a0; a1] -> val [a0; a1] < gen_p124_modulus_attr -> wf [b0; b1] -> val [b0; b1] < gen_p124_modulus_attr ->
+  let r := gen_p124_add_assign a0 a1 b0 b1 in
+  wf r /\ length r = 2%nat /\ val r < gen_p124_modulus_attr /\ val r = (val [a0; a1] + val [b0; b1]) mod gen_p124_modulus_attr.
+Proof. exact gen_p124_add_assign_spec. Qed.
+Theorem GenDerive_p124_sub_assign_spec : forall a0 a1 b0 b1,
+  wf [a0; a1] -> val [a0; a1] < gen_p124_modulus_attr -> wf [b0; b1] -> val [b0; b1] < gen_p124_modulus_attr ->
+  let r := gen_p124_sub_assign a0 a1 b0 b1 in
+  wf r /\ length r = 2%nat /\ val r < gen_p124_modulus_attr /\ val r = (val [a0; a1] - val [b0; b1]) mod gen_p124_modulus_attr.
+Proof. exact gen_p124_sub_assign_spec. Qed.
+Theorem GenDerive_p124_double_in_place_spec : forall a0 a1,
+  wf [a0; a1] -> val [a0; a1] < gen_p124_modulus_attr ->
+  let r := gen_p124_double_in_place a0 a1 in
+  wf r /\ length r = 2%nat /\ val r < gen_p124_modulus_attr /\ val r = (2 * val [a0; a1]) mod gen_p124_modulus_attr.
+Proof. exact gen_p124_double_in_place_spec. Qed.
+Theorem GenDerive_p124_neg_in_place_spec : forall a0 a1,
+  wf [a0; a1] -> val [a0; a1] < gen_p124_modulus_attr ->
+  let r := gen_p124_neg_in_place a0 a1 in
+  wf r /\ length r = 2%nat /\ val r < gen_p124_modulus_attr /\ val r = (- val [a0; a1]) mod gen_p124_modulus_attr.
+Proof. exact gen_p124_neg_in_place_spec. Qed.
+Theorem GenDerive_p124_mul_assign_spec : forall a0 a1 b0 b1,
+  wf [a0; a1] -> val [a0; a1] < gen_p124_modulus_attr -> wf [b0; b1] -> val [b0; b1] < gen_p124_modulus_attr ->
+  let r := gen_p124_mul_assign (inv_of gen_p124_modulus) a0 a1 b0 b1 in
+  wf r /\ length r = 2%nat /\ val r < gen_p124_modulus_attr /\ (val r * Wn 2) mod gen_p124_modulus_attr = (val [a0; a1] * val [b0; b1]) mod gen_p124_modulus_attr.
+Proof. exact gen_p124_mul_assign_spec. Qed.
+Theorem GenDerive_p124_square_in_place_spec : forall a0 a1,
+  wf [a0; a1] -> val [a0; a1] < gen_p124_modulus_attr ->
+  let r := gen_p124_square_in_place (inv_of gen_p124_modulus) a0 a1 in
+  wf r /\ length r = 2%nat /\ val r < gen_p124_modulus_attr /\ (val r * Wn 2) mod gen_p124_modulus_attr = (val [a0; a1] * val [a0; a1]) mod gen_p124_modulus_attr.
+Proof. exact gen_p124_square_in_place_spec. Qed.
+Theorem GenDerive_p124_mul_assign_model : forall a0 a1 b0 b1,
+  wf [a0; a1] -> wf [b0; b1] -> val [a0; a1] < gen_p124_modulus_attr ->
+  gen_p124_mul_assign (inv_of gen_p124_modulus) a0 a1 b0 b1 = mul_assign true gen_p124_modulus [a0; a1] [b0; b1].
+Proof. exact gen_p124_mul_assign_model. Qed.
+Theorem GenDerive_p124_square_in_place_model : forall a0 a1,
+  wf [a0; a1] -> val [a0; a1] < gen_p124_modulus_attr ->
+  gen_p124_square_in_place (inv_of gen_p124_modulus) a0 a1 = square_in_place true gen_p124_modulus [a0; a1].
+Proof. exact gen_p124_square_in_place_model. Qed.
+
 (* ================= sum_of_products::<M>, the generated interleaved branch ================= *)
 Theorem GenDerive_r62_sop_branch : forall ab,
   (length ab <= 3)%nat -> sum_of_products true gen_r62_modulus ab = sop_interleaved_ab gen_r62_modulus ab.
